@@ -629,9 +629,21 @@ def histLine (s : HState) (toks : Array String) : HState × List Msg :=
               else jsonDenotes f out
             let s' := { s with wr := some { wp with wrote := true } }
             match why with
-            | none => (s', [{ cls := "OK", op := op, kind := "", detail := "" }])
+            | none =>
+              -- C16 on the ToJSON path: float tokens are the shortest round-tripping positional decimals
+              let fl : List Msg := if wp.kind == "json" && !hasInf f then
+                  (match jsonFloatsShortest f out with
+                   | none => [{ cls := "OK", op := "tojsonfloat", kind := "", detail := "" }]
+                   | some w => [{ cls := "SPEC-MISMATCH", op := "tojsonfloat", kind := "value", detail := w }])
+                else []
+              (s', { cls := "OK", op := op, kind := "", detail := "" } :: fl)
             | some w => (s', [{ cls := "SPEC-MISMATCH", op := op, kind := "value", detail := s!"{w}: frame {showFrame f} written as {repr (bytesToString out)}" }])
       | none => failL "WO" "bad WO line"
+  | some "WN" =>
+    -- the injected driver failure was never reached by this call: no error is demanded
+    match s.wr with
+    | some wp => ({ s with wr := some { wp with sqlFail := -1 } }, [])
+    | none => failL "WN" "WN without W"
   | some "WQ" =>
     match s.wr with
     | none => failL "WQ" "WQ without W"
@@ -652,7 +664,9 @@ def histLine (s : HState) (toks : Array String) : HState × List Msg :=
           return (st, stmts)) toks 1 with
       | .error e => failL "WQ" e
       | .ok (st, stmts) =>
-        if st == "P" then (s, [{ cls := "SPEC-MISMATCH", op := "tosql", kind := "panic", detail := "ToSQL panicked" }]) else
+        if st == "P" then
+          (if wp.sqlFail ≥ 0 then (s, [{ cls := "SPEC-MISMATCH", op := "sqlfault", kind := "panic", detail := s!"ToSQL panicked when the driver failed on statement {wp.sqlFail} (Prepare or Exec)" }])
+           else (s, [{ cls := "SPEC-MISMATCH", op := "tosql", kind := "panic", detail := "ToSQL panicked" }])) else
         match wp.src with
         | none =>
           if st == "E" && stmts.isEmpty then (s, [{ cls := "OK", op := "tosql", kind := "", detail := "" }])
